@@ -19,11 +19,17 @@ class C28(Prop):
         "finite domain enumerated completely: start state in {fresh, migrations 1..p recorded in schema_migrations (p=1..N), legacy "
         "database with PRAGMA user_version=p and no schema_migrations table (p=1..N)} x prior handler rows {none, two rows, rows with NULLs "
         "and unicode} x number of run_migrations calls {1,2,3} x connection mode {same connection, new connection per call} x db kind "
-        "{file, :memory:}; N is read from the packaged migration files. Non-trivial = start state is not fresh or more than one run."
+        "{file, :memory:}; N is read from the packaged migration files. Fault families over the same start states: the k-th SQL "
+        "statement that run_migrations prepares is refused (an error surfaces from the middle of a migration run; every k of the run is "
+        "enumerated, quick tier: every 2nd), or the process stops at that statement boundary (the database files are copied at that "
+        "instant and the copy is opened later, as after a kill); then run_migrations runs again without faults and must reach the same "
+        "final schema, every version recorded once, rows intact. Non-trivial = start state is not fresh, more than one run, or a fault."
     )
     assumptions = [
         "earlier schema versions are built by executing the packaged migration SQL files themselves for versions <= p",
         "schemas are compared through PRAGMA table_info / index_list / index_info of every table, not by SQL text",
+        "an interrupted run may raise; only the state it leaves behind is judged, by re-running the migrations on it (the statement's 'any earlier schema version' includes what an interrupted run leaves)",
+        "statement boundaries are observed through sqlite3's authorizer callback (called when a statement is prepared); refusing = SQLITE_DENY there",
     ]
     min_nontrivial_frac = 0.0
 
@@ -47,6 +53,135 @@ class C28(Prop):
             if kind == "memory" and mode == "new":
                 continue  # a new connection to :memory: is a new database
             yield {"start": start, "data": data, "runs": runs, "mode": mode, "kind": kind}
+        stride = 2 if tier == "quick" else 1
+        for start in starts:
+            n = self._count_callbacks(start)
+            for k in range(0, n, stride):
+                yield {"start": start, "data": "two", "kind": "memory", "fault": ["deny", k]}
+                if tier != "quick":
+                    yield {"start": start, "data": "two", "kind": "file", "fault": ["deny", k]}
+                yield {"start": start, "data": "two", "kind": "file", "fault": ["crash", k]}
+
+    def _build_start(self, conn, kind, p, data):
+        for ver, sql in self.files:
+            if ver <= p:
+                conn.executescript(sql)
+        if kind == "recorded":
+            conn.executescript(self.migrate._SCHEMA_MIGRATIONS_DDL)
+            for v in range(1, p + 1):
+                conn.execute("INSERT INTO schema_migrations (package, version) VALUES ('server', ?)", (v,))
+        elif kind == "legacy":
+            conn.execute(f"PRAGMA user_version={p}")
+        rows = self.ROWS[data] if p >= 1 else []
+        for row in rows:
+            conn.execute("INSERT INTO handlers (handler_id, workflow_name, status, ctx) VALUES (?,?,?,?)", row)
+        conn.commit()
+        return rows
+
+    def _count_callbacks(self, start):
+        kind, p = start
+        conn = sqlite3.connect(":memory:")
+        self._build_start(conn, kind, p, "two")
+        n = [0]
+
+        def auth(*_a):
+            n[0] += 1
+            return sqlite3.SQLITE_OK
+
+        conn.set_authorizer(auth)
+        self.migrate.run_migrations(conn)
+        conn.set_authorizer(None)
+        conn.close()
+        return n[0]
+
+    def _reference(self):
+        if self._ref is None:
+            c2 = sqlite3.connect(":memory:")
+            self.migrate.run_migrations(c2)
+            self._ref = self.schema(c2)
+            c2.close()
+        return self._ref
+
+    def run_fault(self, case, r):
+        import shutil
+
+        kind, p = case["start"]
+        how, k = case["fault"]
+        tmp = None
+        if case["kind"] == "file":
+            tmp = tempfile.mkdtemp(prefix="c28-", dir="/dev/shm" if os.path.isdir("/dev/shm") else None)
+            path = os.path.join(tmp, "db.sqlite")
+        else:
+            path = ":memory:"
+        attrs = dict(start=kind, p=p, fault=how, db=case["kind"])
+        try:
+            conn = sqlite3.connect(path)
+            rows = self._build_start(conn, kind, p, case["data"])
+            n = [0]
+            crash_dir = os.path.join(tmp, "crash") if tmp else None
+            seen = []
+
+            def auth(action, a1, a2, dbname, src):
+                i = n[0]
+                n[0] += 1
+                if i == k:
+                    seen.append((action, a1))
+                    if how == "deny":
+                        return sqlite3.SQLITE_DENY
+                    os.mkdir(crash_dir)
+                    for suffix in ("", "-wal", "-shm", "-journal"):
+                        if os.path.exists(path + suffix):
+                            shutil.copy(path + suffix, os.path.join(crash_dir, "db.sqlite" + suffix))
+                return sqlite3.SQLITE_OK
+
+            conn.set_authorizer(auth)
+            raised = None
+            try:
+                self.migrate.run_migrations(conn)
+            except Exception as e:  # noqa: BLE001  (an interrupted run may fail: judged by what it leaves behind)
+                raised = e
+            conn.set_authorizer(None)
+            if not seen:
+                r.classes.append("fault_point_not_reached")
+                conn.close()
+                return
+            if how == "deny":
+                if raised is None:
+                    r.classes.append("refusal_tolerated")
+                try:
+                    conn.rollback()
+                except Exception:  # noqa: BLE001
+                    pass
+                if case["kind"] == "file":
+                    conn.close()
+                    conn = sqlite3.connect(path)
+            else:
+                conn.close()
+                conn = sqlite3.connect(os.path.join(crash_dir, "db.sqlite"))
+            r.classes.append(f"fault_{how}")
+            r.classes.append("fault_at_" + str(seen[0][0]))
+            try:
+                self.migrate.run_migrations(conn)
+                conn.commit()
+            except Exception as e:  # noqa: BLE001
+                r.v("rerun_after_interrupted_run_raised", err=f"{type(e).__name__}: {e}"[:80], **attrs)
+                conn.close()
+                return
+            schema = self.schema(conn)
+            vers = [v for (v,) in conn.execute("SELECT version FROM schema_migrations WHERE package='server' ORDER BY version")]
+            data = conn.execute("SELECT handler_id, workflow_name, status, ctx FROM handlers ORDER BY handler_id").fetchall()
+            conn.close()
+            if vers != list(range(1, self.N + 1)):
+                r.v("versions_not_recorded_once_after_interrupted_run", recorded=vers, **attrs)
+            ref = self._reference()
+            if schema != ref:
+                diff = [t for t in set(schema) | set(ref) if schema.get(t) != ref.get(t)]
+                r.v("final_schema_differs_after_interrupted_run", tables=sorted(diff)[:4], **attrs)
+            if sorted(data) != sorted(rows):
+                r.v("data_changed_after_interrupted_run", **attrs)
+        finally:
+            if tmp:
+                shutil.rmtree(tmp, ignore_errors=True)
 
     ROWS = {
         "none": [],
@@ -71,6 +206,11 @@ class C28(Prop):
     def run_case(self, case):
         r = CaseResult()
         kind, p = case["start"]
+        if case.get("fault"):
+            self.run_fault(case, r)
+            r.nontrivial = any(c.startswith("fault_") and c != "fault_point_not_reached" for c in r.classes)
+            r.classes.append(f"start_{kind}")
+            return r
         tmp = None
         if case["kind"] == "file":
             tmp = tempfile.mkdtemp(prefix="c28-")
